@@ -341,6 +341,14 @@ def accessor_agreement(repo, rep):
 
 
 def run(repo, rep, tier):
+    rep.rule("R-C06-12", "(shared with C07) the wrapper holds the GIL around partition(): with the GIL released, spectra of different chunks are processed "
+                         "concurrently in the same static work arrays and each one's partitions depend on the others")
+    from .c07 import gil_held as _gil
+    _gil(repo, rep, "R-C06-12")
+    rep.rule("R-C06-13", "(shared) every apply_ufunc aligns its operands by label (default join) and hands them to the kernel in the slots of the parameters they "
+                         "are named after: a positional pairing gives a spectrum the wind / depth / threshold of another position")
+    from .shared import ufunc_forwarding as _fwd
+    rep.floor("R-C06-13", "apply_ufunc sites", _fwd(repo, rep, "R-C06-13"), 12)
     rep.rule("R-C06-11", "(shared with C02) every peak kernel gets its index from the one locator applied to the direction-integrated spectrum, whatever "
                          "the number of non-spectral dimensions: a shortcut for single spectra makes a spectrum's peak depend on whether it is "
                          "processed alone or inside a dataset")
